@@ -17,6 +17,7 @@ CONSTANTS
   MaxFaults = 1
   MaxStops = 0
   MaxExpire = 1
+  IgnoredStarts = TRUE
   LateRace = FALSE
 VIEW view
 PROPERTIES Terminates
